@@ -279,8 +279,8 @@ class Battery():
             dx = x2 - x1
             dy = y2 - y1
 
-            if y1 < self.EPS and y2 < self.EPS:
-                # no energy in current linear section: stop charging
+            if y1 < self.EPS:
+                # no power at current SoC: stop charging
                 break
 
             m = dy / dx
@@ -316,9 +316,11 @@ class Battery():
                 assert new_soc >= self.soc, f"Charge: {new_soc} should be greater than {self.soc}"
 
             energy_delta = abs(new_soc - self.soc) * c
-            assert energy_delta > 0
+            if energy_delta <= 0:
+                # no progress possible (e.g. SoC change below float resolution): stop charging
+                break
             self.soc = new_soc
-            assert self.soc < 1 + self.EPS
+            assert self.soc <= 1 + self.EPS
             self.soc = min(self.soc, 1)
             remaining_hours -= abs(t)
             # remember amount of energy loaded into battery
